@@ -368,6 +368,8 @@ class SgzReader(object):
         inline : numpy.ndarray of float32, shape: (n_xlines, n_samples)
             The specified inline, decompressed
         """
+        if self.is_2d:
+            raise WrongDimensionalityError("Trying to read inlines from 2D file")
         return self.read_inline(self.get_inline_index(il_no))
 
     def read_inline(self, il_id):
@@ -411,6 +413,8 @@ class SgzReader(object):
         crossline : numpy.ndarray of float32, shape: (n_ilines, n_samples)
             The specified crossline, decompressed
         """
+        if self.is_2d:
+            raise WrongDimensionalityError("Trying to read crosslines from 2D file")
         return self.read_crossline(self.get_crossline_index(xl_no))
 
     def read_crossline(self, xl_id):
@@ -532,11 +536,16 @@ class SgzReader(object):
                 raise IndexError(self.range_error.format(min_cd_idx, 0, max_cd_len-1))
             if not 0 < max_cd_idx <= max_cd_len:
                 raise IndexError(self.range_error.format(max_cd_idx, 1, max_cd_len))
+            if not min_cd_idx < max_cd_idx:
+                raise IndexError(self.range_error.format((min_cd_idx, max_cd_idx), 0, max_cd_len))
             cd_len = max_cd_idx - min_cd_idx
 
         if min_sample_idx is None or max_sample_idx is None:
+            min_sample_idx, max_sample_idx = None, None
             cd = np.zeros((cd_len, self.n_samples))
         else:
+            if not 0 <= min_sample_idx < max_sample_idx <= self.n_samples:
+                raise IndexError(self.range_error.format((min_sample_idx, max_sample_idx), 0, self.n_samples))
             cd = np.zeros((cd_len, max_sample_idx - min_sample_idx))
 
         if cd_id >= 0:
@@ -596,11 +605,16 @@ class SgzReader(object):
                 raise IndexError(self.range_error.format(min_ad_idx, 0, max_ad_len-1))
             if not 0 < max_ad_idx <= max_ad_len:
                 raise IndexError(self.range_error.format(max_ad_idx, 1, max_ad_len))
+            if not min_ad_idx < max_ad_idx:
+                raise IndexError(self.range_error.format((min_ad_idx, max_ad_idx), 0, max_ad_len))
             ad_len = max_ad_idx - min_ad_idx
 
         if min_sample_idx is None or max_sample_idx is None:
+            min_sample_idx, max_sample_idx = None, None
             ad = np.zeros((ad_len, self.n_samples))
         else:
+            if not 0 <= min_sample_idx < max_sample_idx <= self.n_samples:
+                raise IndexError(self.range_error.format((min_sample_idx, max_sample_idx), 0, self.n_samples))
             ad = np.zeros((ad_len, max_sample_idx - min_sample_idx))
 
         if ad_id < self.n_xlines:
@@ -794,6 +808,8 @@ class SgzReader(object):
             A single trace, decompressed
         """
         if self.is_2d:
+            if not 0 <= index < self.tracecount:
+                raise IndexError(self.range_error.format(index, 0, self.tracecount - 1))
             min_trace = self.blockshape[1] * (index // self.blockshape[1])
 
             if self.blockshape[1] == 4:
@@ -820,6 +836,8 @@ class SgzReader(object):
             min_xl = self.blockshape[1] * (xl // self.blockshape[1])
             min_sample_id = 0 if min_sample_id is None else min_sample_id
             max_sample_id = self.n_samples if max_sample_id is None else max_sample_id
+            if not 0 <= min_sample_id < max_sample_id <= self.n_samples:
+                raise IndexError(self.range_error.format((min_sample_id, max_sample_id), 0, self.n_samples))
 
             min_z = self.blockshape[2] * (min_sample_id // self.blockshape[2])
             max_z = self.blockshape[2] * ((max_sample_id + self.blockshape[2] - 1) // self.blockshape[2])
